@@ -9,7 +9,8 @@ ns = {}
 WAVE = sys.argv[1]
 exec(open(os.path.join(ROOT, 'notes/mut%s/index.py' % WAVE)).read(), ns)
 M = ns['M']
-ALT = {"3": {"C13-bug3": ["C11"], "C14-bug2": ["C12", "C01"], "C08-bug1": ["C06", "C09"], "C09-bug1": ["C06", "C08"]},
+ALT = {"7": {"C05-bug1": ["C06"], "C08-bug1": ["C07"], "C17-bug1": ["C06"], "C20-bug1": ["C14"]},
+       "3": {"C13-bug3": ["C11"], "C14-bug2": ["C12", "C01"], "C08-bug1": ["C06", "C09"], "C09-bug1": ["C06", "C08"]},
        "6": {"C05-bug2": ["C06"], "C06-bug2": ["C05"], "C02-bug2": ["C01", "C13"]},
        "5": {"C18-bug2": ["C01", "C04"], "C01-bug1": ["C04"], "C07-bug2": ["C08"], "C09-bug2": ["C06"], "C08-bug2": ["C09"]},
        "4": {"C04-bug3": ["C01"], "C01-bug1": ["C04"], "C17-bug2": ["C07", "C06"], "C19-bug2": ["C12"], "C18-bug1": ["C04", "C01"]}}.get(sys.argv[1], {})
